@@ -227,10 +227,12 @@ def _adversarial(ctx):
         for v in (" lead", "trail ", " both ", '""', '"q"', 'a""b', "x = y", f + " = z", "日本 ♪", "tab\tin", "a\ufeffb", "\ufeff", "\ufeffx\ufeff", "x\u00a0y", "\u200b", "日\u3000本", "e\u0301", "\U0001f3b8"):
             check_song(ctx, ["Resolution = 192", '%s = "%s"' % (f, v)], "adversarial value %r of %s" % (v, f))
     for f in INT_FIELDS:
-        for v in ("0", "7", "007", "99999999", "123456789012345678901234"):
+        for v in ("0", "00", "7", "007", "99999999", "123456789012345678901234"):
             if f == "Resolution":
-                if int(v) > 0:
-                    check_song(ctx, ["Resolution = %s" % v], "integer %s" % v)
+                # 0 is a present, well-formed value: it is DECODED (and the chart then rejected as non-positive
+                # resolution, ValueError) - never reported as a missing field
+                check_song(ctx, ["Resolution = %s" % v], "integer %s" % v)
+                check_song(ctx, ['Name = "n"', "Resolution = %s" % v, "Offset = 0"], "integer %s" % v)
             else:
                 check_song(ctx, ["Resolution = 192", "%s = %s" % (f, v)], "integer %s of %s" % (v, f))
     for v in ("bass", "rhythm"):
